@@ -1095,10 +1095,11 @@ class Literal(Variable[T]):
     ):
         original_data = data
         data = [data]
-        if not type_:
+        if not type_ and not hasattr(original_data, "__next__"):
+            # the type is taken from the first element; a one-shot iterator is left untouched (it would be consumed).
             original_data_lst = make_list(original_data)
             first_value = original_data_lst[0] if len(original_data_lst) > 0 else None
-            type_ = type(first_value) if first_value else None
+            type_ = type(first_value) if first_value is not None else None
         if name is None:
             if type_:
                 name = type_.__name__
